@@ -1734,7 +1734,7 @@ pub fn run_timed(idx: usize, rec: &Value, seed: u64, tm: Timed) -> Value {
         json!({"e": "rx", "f": {"k": "Handshake", "next": "Login"}}),
         json!({"e": "rx", "f": {"k": "LoginStart", "who": "claimed"}}),
         json!({"e": "rx", "f": {"k": "LoginCookieResponse", "which": "session", "v": "absent"}}),
-        json!({"e": "rx", "f": {"k": "EncryptionResponse", "c": "honest"}}),
+        json!({"e": "rx", "f": {"k": "EncryptionResponse", "c": sched["enc"].as_str().unwrap_or("honest")}}),
         // what the service vouches for differs from what the client claimed in every second schedule
         json!({"e": "call", "c": {"a": "auth", "ret": if idx % 2 == 1 { "other" } else { "same" }}}),
         json!({"e": "call", "c": {"a": "discover", "ret": ["t1", "t2"]}}),
@@ -1750,7 +1750,7 @@ pub fn run_timed(idx: usize, rec: &Value, seed: u64, tm: Timed) -> Value {
     let mut jar = Jar { auth: None, sess: None };
     let rt = tokio::runtime::Builder::new_current_thread().enable_all().start_paused(true).build().unwrap();
     let rc = RoundCfg { secret: None, client_addr: conc.client_addr, expiry: conc.expiry, real_delay_ms: 0, block_writes_after: None };
-    let out = rt.block_on(run_round(conc.clone(), rc, &evs, Some(tm), lats, &mut jar, log.clone(), 0, seed));
+    let out = rt.block_on(run_round(conc.clone(), rc, &evs, Some(tm), lats, &mut jar, log.clone(), sched["var"].as_u64().unwrap_or(0), seed));
     drop(rt);
     let obs = log.lock().unwrap().clone();
     json!({"obs": obs, "result": if out.hang { "running".to_string() } else { out.result }, "why": out.why, "panic": out.panic, "hang": out.hang,
